@@ -236,7 +236,9 @@ MC_Seeds(m) ==
     ELSE IF IsSites THEN (IF Which = "sites_quick" THEN SitesQuick(0) ELSE SitesThorough(0))
     ELSE T(ModesFor(Which)[m][1], ModesFor(Which)[m][2], 0) \cup {[op |-> "none"]}
 MC_Rights(m) ==
-    IF Which = "views" THEN ViewRights(80) \cup SpanMetricViews(90)
+    IF Which = "views" THEN ViewRights(80)
+                            \cup {[op |-> "span", t |-> [op |-> "pair", kvs |-> KVs(<<KEvtKind>>, 90)]],
+                                  [op |-> "metric", t |-> [op |-> "arr", kvs |-> KVs(<<KMetricValue, KEvtKind>>, 90)]]}
     ELSE IF IsSites THEN {}
     ELSE T(ModesFor(Which)[m][1], ModesFor(Which)[m][2], Width(ModesFor(Which)[m][2]))
 MC_Wraps(m) ==
